@@ -515,34 +515,74 @@ func parseContent(contentMap map[string]any) (Content, error) {
 	contentType := extractString(contentMap, "type")
 
 	switch contentType {
-	case "text":
+	case ContentTypeText:
 		return parseTextContent(contentMap)
-	case "image":
+	case ContentTypeImage:
 		return parseImageContent(contentMap)
-	case "resource":
+	case ContentTypeAudio:
+		return parseAudioContent(contentMap)
+	case ContentTypeEmbeddedResource, "embedded_resource": // "embedded_resource": tag used by earlier versions
 		return parseResourceContent(contentMap)
 	default:
 		return nil, fmt.Errorf("unsupported content type: %s", contentType)
 	}
 }
 
+// extractPresentString extracts a string value and reports whether the key holds a string at all
+// (an empty string is a legitimate value and must not be confused with a missing field).
+func extractPresentString(data map[string]any, key string) (string, bool) {
+	str, ok := data[key].(string)
+	return str, ok
+}
+
+// parseAnnotated parses the optional annotations of a content item.
+func parseAnnotated(contentMap map[string]any) Annotated {
+	var annotated Annotated
+	annotations := extractMap(contentMap, "annotations")
+	if annotations == nil {
+		return annotated
+	}
+	data, err := json.Marshal(annotations)
+	if err != nil {
+		return annotated
+	}
+	_ = json.Unmarshal(data, &annotated.Annotations)
+	return annotated
+}
+
 // parseTextContent parses text content
 func parseTextContent(contentMap map[string]any) (Content, error) {
-	text := extractString(contentMap, "text")
-	if text == "" {
+	text, ok := extractPresentString(contentMap, "text")
+	if !ok {
 		return nil, fmt.Errorf("text is missing")
 	}
-	return NewTextContent(text), nil
+	content := NewTextContent(text)
+	content.Annotated = parseAnnotated(contentMap)
+	return content, nil
 }
 
 // parseImageContent parses image content
 func parseImageContent(contentMap map[string]any) (Content, error) {
-	data := extractString(contentMap, "data")
-	mimeType := extractString(contentMap, "mimeType")
-	if data == "" || mimeType == "" {
+	data, hasData := extractPresentString(contentMap, "data")
+	mimeType, hasMimeType := extractPresentString(contentMap, "mimeType")
+	if !hasData || !hasMimeType {
 		return nil, fmt.Errorf("image data or mimeType is missing")
 	}
-	return NewImageContent(data, mimeType), nil
+	content := NewImageContent(data, mimeType)
+	content.Annotated = parseAnnotated(contentMap)
+	return content, nil
+}
+
+// parseAudioContent parses audio content
+func parseAudioContent(contentMap map[string]any) (Content, error) {
+	data, hasData := extractPresentString(contentMap, "data")
+	mimeType, hasMimeType := extractPresentString(contentMap, "mimeType")
+	if !hasData || !hasMimeType {
+		return nil, fmt.Errorf("audio data or mimeType is missing")
+	}
+	content := NewAudioContent(data, mimeType)
+	content.Annotated = parseAnnotated(contentMap)
+	return content, nil
 }
 
 // parseResourceContent parses resource content
@@ -555,7 +595,9 @@ func parseResourceContent(contentMap map[string]any) (Content, error) {
 	if err != nil {
 		return nil, err
 	}
-	return NewEmbeddedResource(resourceContents), nil
+	content := NewEmbeddedResource(resourceContents)
+	content.Annotated = parseAnnotated(contentMap)
+	return content, nil
 }
 
 // extractString extracts a string value from a map by key
@@ -579,14 +621,14 @@ func extractMap(data map[string]any, key string) map[string]any {
 }
 
 func parseResourceContents(contentMap map[string]any) (ResourceContents, error) {
-	uri := extractString(contentMap, "uri")
-	if uri == "" {
+	uri, ok := extractPresentString(contentMap, "uri")
+	if !ok {
 		return nil, fmt.Errorf("resource uri is missing")
 	}
 
 	mimeType := extractString(contentMap, "mimeType")
 
-	if text := extractString(contentMap, "text"); text != "" {
+	if text, ok := extractPresentString(contentMap, "text"); ok {
 		return TextResourceContents{
 			URI:      uri,
 			MIMEType: mimeType,
@@ -594,7 +636,7 @@ func parseResourceContents(contentMap map[string]any) (ResourceContents, error) 
 		}, nil
 	}
 
-	if blob := extractString(contentMap, "blob"); blob != "" {
+	if blob, ok := extractPresentString(contentMap, "blob"); ok {
 		return BlobResourceContents{
 			URI:      uri,
 			MIMEType: mimeType,
